@@ -70,9 +70,14 @@ def run_flow(col):
     fa = flow.FlowAnalysis(fn).run()
     where = "tools/_newton.py:%d newtonrhapson" % fn.lineno
     rets = [(s, n) for s, n in fa.at_return if n is not None]
-    bad = [(n.lineno, s.get("success")) for s, n in rets if s.get("success") != flow.T]
-    col.add("C07.O1", "newtonrhapson returns", "at every return statement the abstract value of `success` is True (all paths, any maxiter)", bool(rets) and not bad,
-            "%s: returns %d, offending %s" % (where, len(rets), bad[:4]))
+    bad = [(n.lineno, s.get("success")) for s, n in rets if s.get("success") == flow.F]
+    unknown = [(n.lineno, s.get("success")) for s, n in rets if s.get("success") not in (flow.T, flow.F)]
+    rule = "at every return statement the abstract value of `success` is True (all paths, any maxiter)"
+    if unknown and not bad:
+        # no branch condition the engine understands establishes success on this path: not a verdict (the scripted runs decide the behaviour)
+        col.undecided("C07.O1", "newtonrhapson returns", rule, "%s: `success` is not determined at return(s) %s (unrecognised guard idiom)" % (where, sorted({l for l, v in unknown})))
+    else:
+        col.add("C07.O1", "newtonrhapson returns", rule, bool(rets) and not bad, "%s: returns %d, offending %s" % (where, len(rets), bad[:4]))
     fell = [s for s, n in fa.at_return if n is None]
     col.add("C07.O1", "newtonrhapson falls off the end", "no path leaves the function without an explicit return or raise", not fell, "%s: %d paths" % (where, len(fell)))
     # with success == True after the loop no raise may be reachable (a converged solve is returned, not rejected)
@@ -107,8 +112,13 @@ def run_flow(col):
     fnc = flow.function_node(tree, "check")
     fc = flow.FlowAnalysis(fnc).run()
     calls = fc.at_call.get("update_statevars", [])
-    bad = [n.lineno for s, n in calls if s.get("success") != flow.T]
-    col.add("C07.O4", "check commits only on success", "update_statevars is called only in states where success is True", bool(calls) and not bad, "tools/_newton.py:%d check: lines %s" % (fnc.lineno, bad))
+    bad = [n.lineno for s, n in calls if s.get("success") == flow.F]
+    unknown = [n.lineno for s, n in calls if s.get("success") not in (flow.T, flow.F)]
+    if unknown and not bad:
+        col.undecided("C07.O4", "check commits only on success", "update_statevars is called only in states where success is True",
+                      "tools/_newton.py:%d check: `success` is not determined at the call(s) in lines %s (unrecognised guard idiom)" % (fnc.lineno, unknown))
+    else:
+        col.add("C07.O4", "check commits only on success", "update_statevars is called only in states where success is True", bool(calls) and not bad, "tools/_newton.py:%d check: lines %s" % (fnc.lineno, bad))
 
 
 def run_commit(col):
